@@ -11,7 +11,10 @@ rectangle to the ground bbox (C01.c); axis discipline of the placement arithmeti
 shared qualifier system of C03.a).
 Added in round 4: bbox_equals compares all four edges, each with the same edge of the other
 rectangle (C01.i); the rectangle clipped at the grid border (tile_bbox limit=True) is only used for
-KML descriptions, never as the extent of an image (C01.j)."""
+KML descriptions, never as the extent of an image (C01.j).
+Added in round 5: a tile source answers only with a tile that is the requested rectangle (C01.k); a
+tile is clipped with its own rectangle (C01.l); the reprojecting source asks upstream with the
+source query (C01.m, shared C17.b)."""
 import ast
 
 from ..engine import rule, run_property
